@@ -987,7 +987,6 @@ func c03StateTables(c *Ctx, rule string) {
 	}
 }
 
-
 // c03Pairing: before/after pairing by name requires the same rule kind and
 // an error-free entry (shared with C20: a kind-blind pairing turns a removal
 // into a modification and rule/dependency never runs).
